@@ -1399,6 +1399,16 @@ func c15Corpus() []c15Case {
 	c.Body = strings.Repeat("0123456789abcdef", 1<<17)
 	out = append(out, c)
 
+	// C15-F9: a trusted X-Forwarded-Uri that url.Parse rejects; the query of a parsable one is kept as sent
+	c = base("GET", "/users", "")
+	c.Srv = 1
+	c.Headers = [][2]string{{"X-Forwarded-Uri", "/%zz"}}
+	out = append(out, c)
+	c = base("GET", "/users", "z=0")
+	c.Srv = 1
+	c.Headers = [][2]string{{"X-Forwarded-Uri", "/other?b=2&a=%7E&&c"}}
+	out = append(out, c)
+
 	// C15-F5: add_path_prefix that is not a valid encoded path
 	c = base("GET", "/x%3By", "")
 	c.Rw = &c15Rw{Add: "/a b"}
